@@ -73,6 +73,10 @@ func IDs() []string {
 }
 
 // Env is the per-process environment of a check.
+// ProcScratch is the scratch directory of this process (set before a property's Setup runs), for helpers that have
+// no Env at hand.
+var ProcScratch string
+
 type Env struct {
 	Tier     string
 	Seed     int64
@@ -133,6 +137,7 @@ func RunWorker(p *Prop, env *Env) *WorkerResult {
 	start := time.Now()
 	res := &WorkerResult{Shard: env.Shard, HarnessErrs: map[string]int{}, Counters: map[string]int{}}
 	if p.Setup != nil {
+		ProcScratch = env.Scratch
 		if err := p.Setup(env); err != nil {
 			res.Fatal = "setup: " + err.Error()
 			return res
@@ -275,6 +280,7 @@ func CaseCheck(p *Prop, env *Env, caseFile string) int {
 		return 2
 	}
 	if p.Setup != nil {
+		ProcScratch = env.Scratch
 		if err := p.Setup(env); err != nil {
 			return 2
 		}
